@@ -25,7 +25,7 @@ RULE = (
     "every fifth case of a shard is a MultiFit of two xy / indexed members of nonlinear families (same family: all parameters shared; exponential+powerlaw, gausspeak+lorentz: "
     "partly shared; signature order permuted with p = 0.3), data of both members drawn from one truth, every member with its own sources, no shared source; per member "
     "'dynamic' (x source or source relative to the model) or 'static' (absolute y sources only) in all combinations and both orders (mixed : all-dynamic : none-dynamic = 4 : 1 : 1); "
-    "fixed / limited parameters declared on the MultiFit; start values 7 % (all families) or up to 30 % (monotone families, p = 0.7) off the defaults; "
+    "fixed / limited parameters declared on the MultiFit or (a third of the multi-fits, enumerated: fixed + active limit / active limit / random) on a member fit before the MultiFit is created from the members; start values 7 % (all families) or up to 30 % (monotone families, p = 0.7) off the defaults; "
     "the xy cases of every fourth round of a shard are the stratum 'flat-start-correlated-x' (monotone family, correlated x source, start amplitude 0); "
     "non-trivial = parameter-dependent covariance (x or model-relative source) or an active limit or a fixed parameter; distinct by case hash"
 )
@@ -33,7 +33,7 @@ ASSUMPTIONS = [
     "well-posed problems only: data drawn from the model with independent noise (the base y source is uncorrelated; correlated sources come on top), start within the basin of the truth; a backend disagreement where each backend started at the other optimum stays there (two stable local minima) is discarded and counted; cases whose reference Hessian (at the optimum over interior free parameters, and at any lower point found over all free parameters) is not positive definite or has cond > 1e4 are discarded and counted",
     "local-minimum clause: violation iff an admissible point (probes at +-{0.1,0.5,1} sigma per free axis, 8 random directions, Nelder-Mead polish) has reference cost lower than at the reported optimum by more than 1e-3 (iminuit) / 5e-3 (scipy)",
     "iterative algorithm: the local-minimum clause is replaced by the fixed-point clause (minimising the cost with the covariance frozen at the reported optimum must stay within 2e-2 reference sigma for iminuit, 1e-1 for scipy = two scipy states of 5e-2 each; observed 0.061)",
-    "multi-fits: the reference objective is the sum of the members' reference costs over the union of the parameter names (members share parameters only; sources shared through MultiFit.add_error are the workload of C10 / C11); the members use the default 'nonlinear' algorithm (the MultiFit's own dynamic_error_algorithm argument is not consulted by kafe2); the same clauses, tolerances and well-posedness rules as for single fits apply to the joint optimum",
+    "multi-fits: the reference objective is the sum of the members' reference costs over the union of the parameter names (members share parameters only; sources shared through MultiFit.add_error are the workload of C10 / C11); the members use the default 'nonlinear' algorithm (the MultiFit's own dynamic_error_algorithm argument is not consulted by kafe2); a parameter fixed / limited on a member fit before the MultiFit is created counts as fixed / limited for the combined fit (for a shared parameter: declared on one of the members that have it); the same clauses, tolerances and well-posedness rules as for single fits apply to the joint optimum",
     "a local-minimum alarm of the scipy backend is attributed to the open scipy-adapter finding by the 'do_fit() again continues' signature only if iminuit's optimum of the same case passed the clause (or rests on a limit): a failure that both backends share is not a property of the scipy adapter",
     "a fixed-point alarm is attributed to the finding 'the iterative algorithm alternates between two points and returns unconverged' iff the reference iteration map T (covariance frozen at a point, documented cost minimised over the interior free parameters) sends the reported optimum p to q and q back to p, |T(q) - p| <= 0.1 |q - p| in reference sigma (a result that stopped short of a fixed point the iteration converges to has T(q) next to q and stays unclassified)",
     "cross-backend clause uses sigma from the reference Hessian over interior free parameters (1e-1 sigma = sum of the per-backend tolerances of C05, rounded up); a parameter on a limit must be on the same limit for both backends",
@@ -55,6 +55,7 @@ ANCHORS = [
     ("kafe2.fit.multi.fit", "MultiFit._pre_fit_iteration"),
     ("kafe2.fit.multi.fit", "MultiFit._post_fit_iteration"),
     ("kafe2.fit.multi.fit", "MultiFit.fix_parameter"),
+    ("kafe2.fit.multi.fit", "MultiFit._init_nexus"),
     ("kafe2.core.fitters.nexus_fitter", "NexusFitter.fix_parameter"),
     ("kafe2.core.fitters.nexus_fitter", "NexusFitter.limit_parameter"),
     ("kafe2.core.minimizers.iminuit_minimizer", "MinimizerIMinuit.limit"),
@@ -69,11 +70,13 @@ ANCHORS = [
 def floors(tier):
     return {
         "comparisons": {"local-minimum": 60, "fixed-exact": 30, "within-limits": 30, "backends-agree": 40, "iterative-fixed-point": 15,
-                        "local-minimum(multi, mixed)": 16, "local-minimum(multi, all-dynamic)": 4, "local-minimum(multi, none-dynamic)": 4, "backends-agree(multi)": 12, "fixed-exact(multi)": 4},
-        "ops": ["do_fit", "multi.do_fit"],
+                        "local-minimum(multi, mixed)": 16, "local-minimum(multi, all-dynamic)": 4, "local-minimum(multi, none-dynamic)": 4, "backends-agree(multi)": 12, "fixed-exact(multi)": 4,
+                        "fixed-exact(multi, fixed on a member before creation)": 4, "within-limits(multi, limited on a member before creation)": 6},
+        "ops": ["do_fit", "multi.do_fit", "member.fix_parameter(before MultiFit)", "member.limit_parameter(before MultiFit)"],
         "reach": ["%s:%s" % a for a in ANCHORS],
         "strata": ["xy", "indexed", "hist", "unbinned", "x-source", "model-relative-source", "iterative", "nonlinear", "fixed", "limited", "active-limit", "flat-start-correlated-x",
-                   "multi", "multi:mixed", "multi:mixed:dynamic-first", "multi:mixed:static-first", "multi:all-dynamic", "multi:none-dynamic", "multi:x-source", "multi:model-relative-source", "multi:far-start", "multi:partly-shared-parameters"],
+                   "multi", "multi:mixed", "multi:mixed:dynamic-first", "multi:mixed:static-first", "multi:all-dynamic", "multi:none-dynamic", "multi:x-source", "multi:model-relative-source", "multi:far-start", "multi:partly-shared-parameters",
+                   "multi:member-fixed-before-creation", "multi:member-limited-before-creation", "multi:member-active-limit-before-creation"],
         "sets": {"multi-member": 12},
         "distinct_nontrivial": 40,
     }
@@ -95,17 +98,17 @@ def multi_names(case):
     return names
 
 
-def gen_fixed_limited(rng, pnames, defaults):
+def gen_fixed_limited(rng, pnames, defaults, force_fixed=False, force_active_limit=False):
     fixed, limited = {}, {}
-    if len(pnames) >= 2 and rng.random() < 0.35:
+    if len(pnames) >= 2 and (rng.random() < 0.35 or force_fixed):
         nm = pnames[int(rng.integers(0, len(pnames)))]
         fixed[nm] = float(np.round(defaults[pnames.index(nm)] * rng.uniform(0.97, 1.03), 5))
-    if rng.random() < 0.45:
+    if rng.random() < 0.45 or force_active_limit:
         cand = [q for q in pnames if q not in fixed]
         nm = cand[int(rng.integers(0, len(cand)))]
         c = float(defaults[pnames.index(nm)])
         w = abs(c) * 0.6 + 0.3
-        if rng.random() < 0.5:
+        if rng.random() < 0.5 or force_active_limit:
             # limits that cut the optimum off on one side (active limit)
             off = (abs(c) * 0.03 + 0.02) * (1 if rng.random() < 0.5 else -1)
             limited[nm] = [float(np.round(c + off, 4)), float(np.round(c + off + w, 4))] if off > 0 else [float(np.round(c + off - w, 4)), float(np.round(c + off, 4))]
@@ -161,7 +164,21 @@ def gen_multi(rng, tier, k, shard):
     case = {"property": "C06", "kind": "multi", "members": members}
     names = multi_names(case)
     dvals = [defaults[nm] for nm in names]
-    fixed, limited = gen_fixed_limited(rng, names, dvals)
+    # where the fixed / limited parameters are declared: on the MultiFit, or (a third of the multi-fits, enumerated) on a member fit that
+    # has the parameter, BEFORE the MultiFit is created from the members; of these, by turns: one fixed parameter and a limit that cuts
+    # the optimum off / such a limit only / random
+    on_member = ((k // 6) + k) % 3 == 0
+    sub = (k // 3) % 3 if on_member else 2
+    fixed, limited = gen_fixed_limited(rng, names, dvals, force_fixed=sub == 0, force_active_limit=sub in (0, 1))
+    declared_on = {}
+    if on_member:
+        for _ in range(20):
+            if fixed or limited:
+                break
+            fixed, limited = gen_fixed_limited(rng, names, dvals)
+        for nm in list(fixed) + list(limited):
+            owners = [j for j, mbr in enumerate(members) if nm in Model.from_spec(mbr["spec"]["model"]).pnames]
+            declared_on[nm] = int(owners[int(rng.integers(0, len(owners)))])
     # the covariance of the first (frozen) pass is the one at the start values: start well away from the optimum where the family
     # has a single basin
     far = all(f in MONOTONE for f in fams) and rng.random() < 0.7
@@ -170,7 +187,7 @@ def gen_multi(rng, tier, k, shard):
     for nm, (lo, hi) in limited.items():
         if nm in start:
             start[nm] = float(np.clip(start[nm], lo + 1e-3 * (hi - lo), hi - 1e-3 * (hi - lo)))
-    case.update({"fixed": fixed, "limited": limited, "start": start, "far_start": bool(far)})
+    case.update({"fixed": fixed, "limited": limited, "start": start, "far_start": bool(far), "declared_on_member": declared_on})
     return case
 
 
@@ -313,6 +330,12 @@ class MultiMember:
         from kafe2.fit import MultiFit
 
         self.members = [Member(m["spec"], m["setup"], minimizer=minimizer) for m in case["members"]]
+        for nm, j in case.get("declared_on_member", {}).items():
+            # declared on a member fit before the MultiFit exists: stays in force for the combined fit
+            if nm in case["fixed"]:
+                self.members[j].fit.fix_parameter(nm, case["fixed"][nm])
+            if nm in case["limited"]:
+                self.members[j].fit.limit_parameter(nm, case["limited"][nm][0], case["limited"][nm][1])
         self.names = multi_names(case)
         self.idx = [[self.names.index(nm) for nm in mb.ref.model.pnames] for mb in self.members]
         self.fit = MultiFit([mb.fit for mb in self.members], minimizer=minimizer)
@@ -351,10 +374,13 @@ def optimum(mb):
 def run_backend(case, minimizer):
     mb = MultiMember(case, minimizer) if case.get("kind") == "multi" else Member(case["spec"], case["setup"], minimizer=minimizer)
     fit = mb.fit
+    on_member = case.get("declared_on_member", {})
     for nm, v in case["fixed"].items():
-        fit.fix_parameter(nm, v)
+        if nm not in on_member:
+            fit.fix_parameter(nm, v)
     for nm, (lo, hi) in case["limited"].items():
-        fit.limit_parameter(nm, lo, hi)
+        if nm not in on_member:
+            fit.limit_parameter(nm, lo, hi)
     if case["start"]:
         fit.set_parameter_values(**case["start"])
     fit.do_fit()
@@ -381,6 +407,13 @@ def run_case(ctx, case):
         if len(set(m["spec"]["model"]["family"] for m in case["members"])) == 2:
             ctx.stratum("multi:partly-shared-parameters")
         setup_all = [o for m in case["members"] for o in m["setup"]]
+        on_member = case.get("declared_on_member", {})
+        if any(nm in on_member for nm in case["fixed"]):
+            ctx.stratum("multi:member-fixed-before-creation")
+            ctx.op("member.fix_parameter(before MultiFit)")
+        if any(nm in on_member for nm in case["limited"]):
+            ctx.stratum("multi:member-limited-before-creation")
+            ctx.op("member.limit_parameter(before MultiFit)")
     else:
         spec = case["spec"]
         ctx.stratum(spec["type"])
@@ -437,10 +470,14 @@ def run_case(ctx, case):
             ctx.eq("fixed-exact", float(p[names.index(nm)]), float(v), detail=d)
             if multi:
                 ctx._count("fixed-exact(multi)")
+                if nm in on_member:
+                    ctx._count("fixed-exact(multi, fixed on a member before creation)")
         on_limit = {}
         for nm, (lo, hi) in limited.items():
             v = p[names.index(nm)]
             ctx.check("within-limits", lo - 1e-12 * max(1.0, abs(lo)) <= v <= hi + 1e-12 * max(1.0, abs(hi)), dict(d, name=nm, limits=[lo, hi], value=v))
+            if multi and nm in on_member:
+                ctx._count("within-limits(multi, limited on a member before creation)")
             if abs(v - lo) <= 1e-6 * max(1.0, abs(lo)) + 1e-4 * (hi - lo):
                 on_limit[nm] = lo
             elif abs(v - hi) <= 1e-6 * max(1.0, abs(hi)) + 1e-4 * (hi - lo):
@@ -449,6 +486,8 @@ def run_case(ctx, case):
         if on_limit:
             ctx.stratum("active-limit")
             nontrivial = True
+            if multi and any(nm in on_member for nm in on_limit):
+                ctx.stratum("multi:member-active-limit-before-creation")
         cost = make_objective(mb, names, fixed, limited)
         c0 = cost(p)
         if not np.isfinite(c0):
